@@ -58,6 +58,7 @@ class HostModel:
         self.globals = {gid: jcopy(layer) for gid, layer in (world.get('globals') or {}).items()}
         self.caches = set(world.get('caches') or [])
         self.cache_ident = {}
+        self.poked = {}          # cid -> snippet entries the host wrote into its resolved Config
         self.bi = builtin_syntax_snippets
         for cid, spec in (world.get('configs') or {}).items():
             self._add(cid, jcopy(spec))
@@ -76,6 +77,7 @@ class HostModel:
             self._hold(cid)
 
     def _hold(self, cid):
+        self.poked.pop(cid, None)       # a rebuilt Config is resolved afresh
         spec = self.cur[cid]
         self.held[cid] = (jcopy(spec), jcopy(self.globals.get(spec.get('global'))))
 
@@ -119,6 +121,10 @@ class HostModel:
             cache = spec.get('cache')
             if cache is not None and cfg_type(spec) == 'stylesheet':
                 ident = snippet_identity(spec, glob, self.bi)
+                if self.poked.get(op['cfg']):
+                    # the host changed the snippet table of this resolved Config by hand: for
+                    # assumption A1 that is another table
+                    ident = canon([ident, sorted(self.poked[op['cfg']].items())])
                 prev = self.cache_ident.get(cache)
                 if prev is None:
                     self.cache_ident[cache] = ident
@@ -195,6 +201,8 @@ class HostModel:
                 raise InvalidHistory('poke of a config that is not held')
             if op.get('section') not in SECTIONS:
                 raise InvalidHistory('bad poke section')
+            if op['section'] == 'snippets':
+                self.poked.setdefault(cid, {})[op['key']] = op.get('value')
         elif kind == 'resolve':
             if op['cfg'] not in self.cur:
                 raise InvalidHistory('unknown config')
